@@ -216,6 +216,8 @@ type CycleScript struct {
 	FailPodDelete   int  `json:"failPodDelete"`   // fail the k-th pod delete API call (0 = none)
 	RecreateEvicted bool `json:"recreateEvicted"` // closed-system mode: evicted pods come back as new pending pods
 	Salt            int  `json:"salt"`
+	// DeleteNodes: nodes that leave the cluster after this cycle (their bound pods go with them, BindRequests stay)
+	DeleteNodes []string `json:"deleteNodes,omitempty"`
 }
 
 type World struct {
@@ -232,8 +234,11 @@ type World struct {
 }
 
 type RawBindRequest struct {
-	Pod  string `json:"pod"`
-	Node string `json:"node"`
+	Pod            string `json:"pod"`
+	Node           string `json:"node"`
+	Phase          string `json:"phase,omitempty"` // "", Pending, Failed, Succeeded
+	FailedAttempts int32  `json:"failedAttempts,omitempty"`
+	BackoffLimit   *int32 `json:"backoffLimit,omitempty"`
 }
 
 // DefaultPriorityClasses as installed by the product.
@@ -318,7 +323,8 @@ func (w *World) Build(now time.Time) *Objects {
 		haveBR[rb.Pod] = true
 		o.BindRequests = append(o.BindRequests, &schedulingv1alpha2.BindRequest{
 			ObjectMeta: metav1.ObjectMeta{Name: rb.Pod, Namespace: Namespace, Labels: map[string]string{"selected-node": rb.Node}},
-			Spec:       schedulingv1alpha2.BindRequestSpec{PodName: rb.Pod, SelectedNode: rb.Node},
+			Spec:       schedulingv1alpha2.BindRequestSpec{PodName: rb.Pod, SelectedNode: rb.Node, BackoffLimit: rb.BackoffLimit, ReceivedResourceType: "Regular"},
+			Status:     schedulingv1alpha2.BindRequestStatus{Phase: rb.Phase, FailedAttempts: rb.FailedAttempts},
 		})
 	}
 	return o
